@@ -11,7 +11,8 @@ RULE = (
     "leading file whitespace) plus own-line/end-of-line comments in every gap label. Oracle: lexical scan of the rebuilt "
     "text outside string and comment content: no tab, no trailing whitespace, <=1 consecutive blank line, same-line gaps "
     "are '' or ' ', nothing before the first token, ; and : attached, closing delimiters that start a line are indented "
-    "like the line holding their opener. Non-trivial = >=1 gap perturbed with a non-canonical whitespace class."
+    "like the line holding their opener. Second generator: every text written by a successful set/rm of a C05 edit history on a "
+    "generated document (a rebuilt text as well) is scanned by the same oracle. Non-trivial = >=1 gap perturbed with a non-canonical whitespace class."
 )
 ASSUMPTIONS = [
     "whitespace inside an interpolation of a string is string content (nima keeps strings raw)",
@@ -46,9 +47,65 @@ def plan(tier):
     return {"shards": 16, "examples": 2800 if tier == "quick" else 20000, "wall_limit": 240 if tier == "quick" else 2400}
 
 
+def edit_outputs(sh, examples):
+    """Second generator: the text written by a successful `set` / `rm` is a rebuilt text too (rebuild() of the edited
+    tree); histories of the C05 engine on generated documents, every emitted text scanned by the same oracle."""
+    from hypothesis import HealthCheck, Phase, given, seed, settings
+    from hypothesis import strategies as st
+
+    from vf.props import c05
+
+    doc_kw, op_kw, flags = c05.params_from_quarantine(sh.quarantine)
+
+    @seed(sh.hseed + 11)
+    @settings(max_examples=examples, database=None, deadline=None, suppress_health_check=list(HealthCheck), phases=[Phase.generate])
+    @given(st.integers(0, 2**48))
+    def prop(n):
+        if sh.over_budget():
+            sh.skipped_budget += 1
+            return
+        g = c05.gen_case(n, kw=doc_kw, scoped_bias=0.3, op_kw=op_kw, flags=flags)
+        if g is None:
+            return
+        text, ops, mode = g
+        bad = []
+
+        def collect(cur, op, path, value, out, notes):
+            if bad or not cst.env_ok(out):
+                return
+            tree = cst.parse(out)
+            if tree.root.has_error:
+                return
+            fl = oracles.c18(tree)
+            cls = "+".join(x for x in notes if not x.startswith("layer-"))
+            for kind, d in fl[:1]:
+                bad.append((f"edit-output:{kind}|{op}|{cls}", dict(d, doc=cur[:400], op=[op, path, value])))
+
+        _f, info = c05.run_case(text, ops, mode, collect=collect)
+        case = {"doc": text, "ops": [list(o) for o in ops], "mode": mode}
+        sh.record(case, info.get("ok_steps", 0) >= 1, ["edit-history", f"oksteps:{min(info.get('ok_steps', 0), 5)}"])
+        for sig, d in bad[:1]:
+            sh.fail(sig, case, d)
+
+    prop()
+
+
 def run_shard(sh):
     RT.run_shard(sh, CFG)
+    edit_outputs(sh, max(20, int(sh.params["examples"] * sh.params.get("scale", 1.0)) // 8))
 
 
 def replay(case):
+    if "ops" in case:
+        from vf.props import c05
+
+        bad = []
+
+        def collect(cur, op, path, value, out, notes):
+            tree = cst.parse(out)
+            if not bad and cst.env_ok(out) and not tree.root.has_error:
+                bad.extend((f"edit-output:{k}", d) for k, d in oracles.c18(tree)[:1])
+
+        c05.run_case(case["doc"], [tuple(o) for o in case["ops"]], case.get("mode", "reparse"), collect=collect)
+        return bad
     return RT.replay(case, CFG)
